@@ -287,7 +287,7 @@ def check_neutral(p):
                 out.append((mksig("cross_class_values", cls), "%r vs %r" % (base[3], vals)))
                 break
     # (a2) inner queries built with the generic class
-    if nesting_depth(p) >= 2 and '"union' not in json.dumps(p) and '"intersect"' not in json.dumps(p) and '"except_of"' not in json.dumps(p):
+    if nesting_depth(p) >= 2:
         g = make_inner_generic(p)
         for cls in CTXS:
             for par in (False, True):
@@ -299,6 +299,10 @@ def check_neutral(p):
                 if a[0].startswith("EXC:") or b[0].startswith("EXC:"):
                     continue
                 ka, kb = [t.key for t in lex.lex(a[0], cls)], [t.key for t in lex.lex(b[0], cls)]
+                if ka != kb and strip_operand_brackets(sqlite_compound_operands(ka)) == strip_operand_brackets(sqlite_compound_operands(kb)):
+                    # the two differ in nothing but the wrapping of set-operation operands: one root cause, one signature
+                    out.append((mksig("generic_inner", cls, "setop_wrapping"), "under %s a set operation built with the generic class keeps the generic operand wrapping: %r, built with %s: %r" % (cls, b[0], cls, a[0])))
+                    break  # one report per class
                 if ka != kb or [repr(v) for v in (a[1] or [])] != [repr(v) for v in (b[1] or [])]:
                     out.append((mksig("generic_inner", cls, _first_diff(ka, kb)), "under %s the statement with generic-built inner queries renders %r, with %s-built ones %r" % (cls, b[0], cls, a[0])))
                     return out
